@@ -452,6 +452,9 @@ type damage struct {
 
 // corruptFile builds a valid counter file for the given metadata and damages
 // it. It returns the bytes and a description of the damage.
+// corruptNone makes corruptFile hand out the file it built without damaging it.
+var corruptNone bool
+
 func corruptFile(t *simrt.Tape, meta string, forLibrary bool) ([]byte, string, []string) {
 	var pairs []refformat.Pair
 	n := 1 + t.Draw(8)
@@ -509,6 +512,9 @@ func corruptFile(t *simrt.Tape, meta string, forLibrary bool) ([]byte, string, [
 	rec := func() refformat.Record { return d.Records[t.Draw(len(d.Records))] }
 	var descs []string
 	ndamage := 1 + t.Biased(3, 2, 3)
+	if corruptNone {
+		ndamage = 0
+	}
 	for k := 0; k < ndamage; k++ {
 		switch t.Draw(12) {
 		case 0: // random bytes
@@ -650,10 +656,24 @@ func scenarioC05Corruption(c *hlib.RunCtx) *hlib.Violation {
 	// pile up poisoned mappings until mmap itself fails.
 	realUnmap = true
 	defer func() { realUnmap = false }()
+	// One file in twenty is not damaged at all but was grown to 4 GiB and more while
+	// nobody had it open (sparse: every byte of its content is intact): lengths no
+	// longer fit 32 bits. (Not combined with damage: a chain made cyclic is walked
+	// for as many steps as the file has room for records, 2^27 here, which is
+	// bounded and cannot be simulated within the step budget.)
+	huge := t.Bool(1, 20)
+	corruptNone = huge
 	data, desc, stored := corruptFile(t, meta, true)
+	corruptNone = false
 	path := filepath.Join(w.local, base)
 	if err := os.WriteFile(path, data, 0666); err != nil {
 		panic(err)
+	}
+	if huge {
+		if os.Truncate(path, 1<<32+int64(t.Draw(4))*refformat.PageSize) == nil {
+			desc = "intact, grown to 4 GiB and more"
+			s.Probe("file-of-4-GiB-at-rest")
+		}
 	}
 	c.Note("nontrivial")
 	// names: the ones in the file, new ones that collide with them, fresh ones
